@@ -130,6 +130,18 @@ def run(ctx):
         cases.append(("small", q, kfl.render(q), kfl.json_of(r), None, {}))
     for q, r, docs in kfl.gen_special_cases(rng, now_ms):
         cases.append(("helper", q, kfl.render(q), kfl.json_of(r), None, docs))
+    # two fields of the record against each other (no literal): every operator on pairs of boundary values, among them
+    # distinct integers that are the same float64, integers against floats and numeric strings, arrays against scalars
+    pv = [0, 1, -1, 7, 7.5, 1000000, 1234567, 1234568, 2 ** 53 - 1, 2 ** 53, 2 ** 53 + 1, 2 ** 53 + 2, -(2 ** 53), -(2 ** 53) - 1,
+          2 ** 62, 2 ** 62 + 1, 2 ** 63 - 1, 2 ** 63 - 2, float(2 ** 53), 9007199254740994.0, 1e21, -0.0, "7", "1000000", "x", None, True]
+    pa, pb = ('path', [('k', 'a')]), ('path', [('k', 'b')])
+    ppairs = [(x, y) for x in pv for y in pv]
+    for x, y in (rng.sample(ppairs, 160) if quick else ppairs):
+        for op in ('==', '!=', '<', '<=', '>', '>='):
+            node = ('Q' if op in ('==', '!=') else 'C', [pa, pb], [op])
+            cases.append(("field-pair", node, kfl.render(node), kfl.json_of({"a": x, "b": y}), None, {}))
+        node = ('Q', [pa, pb], [rng.choice(['==', '!='])])
+        cases.append(("field-pair", node, kfl.render(node), kfl.json_of({"a": [x, 5], "b": y}), None, {}))
     nrand = 1500 if quick else 20000
     for _ in range(nrand):
         q = kfl.gen_logical(rng)
